@@ -32,4 +32,10 @@ def resolveU (items : List RItem) : RRes :=
   | some (order, true) => .ok (order.filter fun n => items.any (·.name = n))
   | some (_, false) => .cyclic
 
+/-- the premises of `resolveU_sound` (Ts/ResolveSound.lean), evaluated by the driver on every compared case -/
+def wfItemsCheck (items : List RItem) : Bool :=
+  decide (items.map (·.name)).Nodup && decide (items.flatMap (·.provides)).Nodup &&
+  items.all (fun it => decide it.requires.Nodup) &&
+  items.all fun it => items.all fun it' => (it.provides ++ it.requires).all fun k => k != it'.name
+
 end Ts
